@@ -8,7 +8,8 @@
    patterns, boundary-structured operands). *)
 From Coq Require Import ZArith List.
 From Verif Require Import Lib.Params Lib.Words Lib.NumberTheory Model.FfLimbs
-  Proofs.FfWords Proofs.FfArith Proofs.FfOps Proofs.FfInverse.
+  Proofs.FfWords Proofs.FfArith Proofs.FfOps Proofs.FfInverse Proofs.FfRoutinesEq.
+From Verif Require Gen.FfRoutines.
 Local Open Scope Z_scope.
 
 (* every literal of every modelled routine is the expected limb of q / -q^-1 /
@@ -74,6 +75,28 @@ Proof. exact toMont_correct. Qed.
 Theorem C05_inv_mod_is_inverse : forall a, a mod q <> 0 -> (a * inv_mod a q) mod q = 1.
 Proof. exact Primes.inv_mod_q. Qed.
 
+(* TRANSLATOR TIE: the Gallina regenerated from ff/element.go and ff/arith.go at every
+   run (tools/limbgen -> Gen/FfRoutines.v) equals the hand-written model the theorems
+   above are about, routine by routine (for Inverse: prologue, the two inner-loop
+   conditions/bodies and the tail of the outer loop).  An edit of those Go routines
+   changes Gen/FfRoutines.v and breaks one of these. *)
+Theorem C05_model_is_the_source :
+  ((forall x y, FfRoutines.mulGeneric x y = mulGeneric x y) /\ (forall z, FfRoutines.fromMontGeneric z = fromMontGeneric z) /\ (forall x y, FfRoutines.addGeneric x y = addGeneric x y) /\ (forall x, FfRoutines.doubleGeneric x = doubleGeneric x) /\ (forall x y, FfRoutines.subGeneric x y = subGeneric x y) /\ (forall x, FfRoutines.negGeneric x = negGeneric x) /\ (forall z, FfRoutines.reduceGeneric z = reduceGeneric z) /\ (forall z, FfRoutines.Element_Halve z = halve z) /\ (forall a b, FfRoutines.butterflyGeneric a b = butterflyGeneric a b) /\ (forall a b c, FfRoutines.madd0 a b c = madd0 a b c)).
+Proof.
+  exact (conj gen_mulGeneric_eq (conj gen_fromMontGeneric_eq (conj gen_addGeneric_eq (conj gen_doubleGeneric_eq
+        (conj gen_subGeneric_eq (conj gen_negGeneric_eq (conj gen_reduceGeneric_eq (conj gen_halve_eq
+        (conj gen_butterflyGeneric_eq gen_madd0_eq))))))))).
+Qed.
+
+Theorem C05_inverse_is_the_source : forall u s r v,
+  FfRoutines.Element_Inverse_tail u s r v =
+  match inv_body u v r s with
+  | inl z => inl z
+  | inr (u', v', r', s') => inr (u', s', r', v')
+  end.
+Proof. exact gen_inv_body_eq. Qed.
+
+Print Assumptions C05_model_is_the_source.
 Print Assumptions C05_mul.
 Print Assumptions C05_add.
 Print Assumptions C05_halve.
